@@ -20,6 +20,9 @@ TRANSFORMS = {
 }
 
 
+_PROG = [None]
+
+
 def classify_gate(fn, c, variant):
     """Classify one condition that guards a transform call inside visit_mut_expr."""
     t = c["t"]
@@ -67,7 +70,7 @@ def classify_gate(fn, c, variant):
                     return "op-is-add"
                 if ctor[0].endswith("AssignOp::AddAssign"):
                     return "op-is-add-assign"
-        tf = T.tpl_facts(c)
+        tf = T.tpl_facts(c, _PROG[0])
         if tf is not None and tf[0] == "all" and all(x in (("is_empty", False), ("all_non_lit", True)) for x in tf[1]):
             return "tpl-instrumentable"
         return "unknown:%s" % hir.cond_str(c)
@@ -76,6 +79,7 @@ def classify_gate(fn, c, variant):
 
 def rule_dispatch(check):
     prog = check.prog
+    _PROG[0] = prog
     R = "TRAV-DISPATCH"
     check.rule(R, "in OperationTransformVisitor::visit_mut_expr each transform entry point is called on the arm of its node kind, gated by nothing but the documented conditions (operator enabled, op is +/+=, template instrumentable, callee is an expression)")
     ovs = [f for f in overrides_of(prog, OPV) if f.name == "visit_mut_expr"]
@@ -217,10 +221,16 @@ def rule_arrow_block(check):
         check.expect(neg, R, R + "/not-modified-only-for-blocks", hir.loc(n), "not_modified only when the body already is a block", "to_dd_arrow_expr can leave an expression-bodied arrow untouched")
     # applied in visit_mut_expr
     v = [g for g in overrides_of(prog, OPV) if g.name == "visit_mut_expr"][0]
-    sites = list(hir.calls_in(v.body, name="to_dd_arrow_expr"))
+    sites = [(v, n, []) for n in hir.calls_in(v.body, name="to_dd_arrow_expr")]
+    if not sites:
+        # through a method of the visitor (one level): the conditions of both levels apply
+        for n0, g in prog.local_callees(v):
+            if g.body is not None:
+                for n in hir.calls_in(g.body, name="to_dd_arrow_expr"):
+                    sites.append((g, n, v.conds_at(n0)))
     check.floor(R, "to_dd_arrow_expr call sites", len(sites), 1)
-    for n in sites:
-        kinds = [classify_gate(v, c, "Arrow") for c in v.conds_at(n)]
+    for g, n, outer in sites:
+        kinds = [classify_gate(v, c, "Arrow") for c in outer] + [classify_gate(g, c, "Arrow") for c in g.conds_at(n)]
         bad = [k for k in kinds if k.startswith("unknown:")]
         check.expect("variant" in kinds and not bad, R, R + "/dispatch", hir.loc(n), "called for every Expr::Arrow", "arrow normalisation is gated: %s" % "; ".join(bad))
 
@@ -479,6 +489,88 @@ def rule_literal_skip(check):
         check.expect(not conds, R, R + "/template-always", hir.loc(n), "the template hook is built unconditionally once reached", "the template hook is built only under %s" % [hir.cond_str(c) for c in conds])
 
 
+def _atom_name(fn, e, truth):
+    """canonical, line-free name of one condition of the apply-argument test"""
+    import re
+
+    e = hir.peel(e)
+    neg = not truth
+    while e.get("k") == "Unary" and e.get("op") == "Not":
+        e = hir.peel(e["x"])
+        neg = not neg
+    txt = None
+    if e.get("k") == "Binary" and e["op"] in ("Eq", "Ne") and "apply" in (hir.lit_value(e["l"]), hir.lit_value(e["r"]), _const_of(fn, e["l"]), _const_of(fn, e["r"])):
+        is_apply = (e["op"] == "Eq") != neg
+        return "apply" if is_apply else "!apply"
+    if e.get("k") == "Binary" and e["op"] in ("Ge", "Gt", "Lt", "Le") and hir.is_call(hir.peel(e["l"])) and (hir.callee_name(hir.peel(e["l"])) or hir.peel(e["l"]).get("method")) == "len":
+        txt = "args.len()%s%s" % ({"Ge": ">=", "Gt": ">", "Lt": "<", "Le": "<="}[e["op"]], hir.lit_value(e["r"]))
+    elif hir.is_call(e):
+        nm = hir.callee_name(e) or e.get("method")
+        base = re.sub(r"#\d+", "", hir.place(hir.call_args(e)[0]) or "?") if hir.call_args(e) else "?"
+        txt = "%s.%s()" % (base.split(".")[-1] if nm != "is_some" else ".".join(base.split(".")[-1:]), nm)
+    else:
+        txt = re.sub(r"#\d+", "", hir.describe(e))[:40]
+    return ("!" if neg else "") + txt
+
+
+def _const_of(fn, e):
+    d = hir.def_path_of(hir.peel_transparent(e))
+    return None if d is None else {"APPLY_METHOD_NAME": "apply", "CALL_METHOD_NAME": "call"}.get(d.split("::")[-1])
+
+
+def rule_apply_args(check):
+    """APPLY-ARGS: which `X.prototype.m.apply(..)` calls the argument test may turn away."""
+    R = "APPLY-ARGS"
+    check.rule(R, "the argument test of the `.call/.apply` path (invalid_args) turns a call away only when its this-argument and every element of its array-literal argument list are literals (the documented literal exclusion); every other shape - `.call`, `.apply(thisArg)`, `.apply(thisArg, <not an array literal>)`, a spread list - is accepted, and the literal test ranges over all elements")
+    prog = check.prog
+    f = prog.fn("function_prototype_transform::invalid_args")
+    paths = hir.decision_paths(f.body)
+    check.floor(R, "paths of the argument test", len(paths), 3)
+    for conds, v in paths:
+        names = [_atom_name(f, c, t) for c, t in conds]
+        key = "%s/%s" % (R, ",".join(names) or "always")
+        if v is None or v.get("k") == "?":
+            check.bad(R, key + "/unanalysable", hir.loc(f.rec), "cannot evaluate the argument test on this path (%s)" % (v or {}).get("why"))
+            continue
+        lv = hir.lit_value(v)
+        if lv is False:
+            check.ok(R, key, hir.loc(v), "accepted")
+            continue
+        if lv is True:
+            check.bad(R, key, hir.loc(v), "`X.prototype.m.apply(..)` is left uninstrumented whenever %s: this shape is not a documented exclusion" % " && ".join(names))
+            continue
+        # a computed answer: must be the all-literal test on the array-literal path
+        on_array = any(n.endswith("is_array()") and not n.startswith("!") for n in names)
+        conj = T._conjuncts(v)
+        this_lit = any(hir.is_call(hir.peel(c)) and (hir.callee_name(hir.peel(c)) or hir.peel(c).get("method")) == "is_lit" for c in conj)
+        alls = [hir.peel(c) for c in conj if hir.is_call(hir.peel(c)) and (hir.callee_name(hir.peel(c)) or hir.peel(c).get("method")) == "all"]
+        full = False
+        pure = False
+        chain = []
+        if len(alls) == 1:
+            x = hir.peel(hir.call_args(alls[0])[0])
+            while x.get("k") == "MethodCall":
+                chain.append(x["method"])
+                x = hir.peel(x["recv"])
+            full = chain == ["iter"] and (hir.place(x) or "").endswith(".elems")
+            cl = hir.peel(hir.call_args(alls[0])[1])
+            called = {hir.callee_name(y) or y.get("method") for y in hir.walk(cl.get("body", {})) if hir.is_call(y)}
+            pure = called <= {"is_none", "is_some", "as_ref", "unwrap", "is_lit", "is_undefined_or_null", "is_some_and", "map_or", "not"}
+        ok = on_array and this_lit and len(alls) == 1 and full and pure and len(conj) == 2
+        why = []
+        if not on_array:
+            why.append("not on the array-literal path")
+        if not this_lit:
+            why.append("the this-argument is not required to be a literal")
+        if len(alls) == 1 and not full:
+            why.append("the literal test does not range over all elements of the array (%s)" % ".".join(reversed(chain)))
+        if len(alls) == 1 and not pure:
+            why.append("the element test does more than ask whether the element is a literal")
+        if len(conj) != 2:
+            why.append("%d conjuncts" % len(conj))
+        check.expect(ok, R, key, hir.loc(v), "turned away iff this and all elements are literals", "the argument test turns `.apply(this, [..])` away on something other than `this and every element are literals`: %s" % "; ".join(why))
+
+
 def rule_predicates(check):
     R = "PREDICATES"
     check.rule(R, "the predicates the receiver table relies on mean what their names say: is_call_or_apply(name) <=> name is `call` or `apply`; member_prop_is_prototype(m) <=> m.prop is the identifier `prototype`; update_status records every status other than NotModified unless the rewrite is cancelled; cancel_visit sets Cancelled")
@@ -567,6 +659,7 @@ def run(check):
 
     check.guarded("TRAV-COVER", lambda c: T.run_cover(c, "TRAV-COVER", OPV, {T.EXPR}, [T.excl_delete, T.excl_tpl_literal, T.excl_arrow], {"visit_mut_expr", "visit_mut_block_stmt"}, block_override_ok=block_ok))
     check.guarded("TRAV-COVER", lambda c: T.run_cover(c, "TRAV-COVER", BTV, {T.BLOCK}, [T.excl_cancelled], {"visit_mut_block_stmt"}))
+    check.guarded("APPLY-ARGS", rule_apply_args)
     check.guarded("TRAV-COVER", lambda c: T.run_cover(c, "TRAV-COVER", "OptChainVisitor", {T.EXPR}, [excl_optchain_lowered], {"visit_mut_expr"}))
     check.guarded("DEFAULT-VISITOR", lambda c: T.rule_default_visitor(c, "VisitMut", {T.EXPR, T.BLOCK}))
     check.guarded("TRAV-DISPATCH", rule_dispatch)
@@ -587,9 +680,37 @@ def run(check):
 
 
 def excl_optchain_lowered(tr, path, missing):
-    # OptChainVisitor is a lowering helper run on one chain: what it does not enter is visited
-    # afterwards by the operation visitor (expr.visit_mut_children_with after the transform).
+    # OptChainVisitor lowers one chain.  The only place where it may stop without entering the
+    # children is the optional link itself once a configured method was found (`found && optional`):
+    # what lies left of that link is hoisted as one operand and visited afterwards by the operation
+    # visitor.  Every other path must visit the children or re-dispatch the node.
     v = tr.variant_known(path, ())
-    if isinstance(v, str) and v.endswith("Expr::OptChain"):
-        return "lowering helper: the operation visitor traverses the result afterwards (checked by TRAV-COVER of the OptChain arm)"
+    if not (isinstance(v, str) and v.endswith("Expr::OptChain")):
+        return None
+    from .. import gate as _gate
+
+    found = optional = False
+    for c in path.conds:
+        if c.get("t") != "bool" or c.get("v") is not True:
+            continue
+        e = _gate._resolve_bool_local(tr.fn, c["e"])
+        e = hir.peel(e)
+        pl = hir.place(e) or ""
+        if pl.endswith(".found"):
+            found = True
+        if pl.endswith(".optional"):
+            optional = True
+    if found and optional:
+        return "the optional link of a chain being lowered: its left part is hoisted as one operand and traversed afterwards by the operation visitor"
+    # re-dispatch of the very node to the same visitor after the mode flag was switched on: the node is
+    # handled again by the `found` paths (which are checked on their own); terminates because the flag
+    # only ever goes from false to true
+    not_found = any(c.get("t") == "bool" and c.get("v") is False and (hir.place(hir.peel(_gate._resolve_bool_local(tr.fn, c["e"]))) or "").endswith(".found") for c in path.conds)
+    for e in path.effects:
+        if e["kind"] == "with" and e["ap"] == () and e["vty"] == tr.visitor_ty_name() and not_found:
+            node = e["node"]
+            sets = [x for x in tr.fn.nodes() if x.get("k") == "Assign" and (hir.place(x["l"]) or "").endswith(".found") and hir.lit_value(x["r"]) is True and x["id"] < node["id"]]
+            same_block = [x for x in sets if tr.fn.conds_at(x) == tr.fn.conds_at(node)]
+            if same_block:
+                return "the node is dispatched again to the same visitor right after `found` was switched on (handled by the found-paths)"
     return None
